@@ -3,6 +3,7 @@ import Mathlib.Analysis.SpecialFunctions.Log.Basic
 import Mathlib.Analysis.SpecialFunctions.Pow.Real
 import Mathlib.Tactic.NormNum
 import EaselModel.Dist.Num
+import EaselModel.Dist.Special
 /-! `ℝ` instance of `Num` (noncomputable): the carrier on which the C10 theorems are stated.
 
 * `exp log pow sqrt floor fabs` are Mathlib's real functions. **Caution**: `Real.log` is total (`log 0 = 0`,
@@ -10,20 +11,28 @@ import EaselModel.Dist.Num
   carries the guard under which the C argument is positive, or covers the C branch that handles the edge.
 * `inf` (`eslINFINITY`) has no real value: it is an **opaque** constant, so no theorem can depend on its value;
   the branches returning `±inf` are stated symbolically (`= -Num.inf`), for every carrier at once.
-* `erfc`, `logGamma`, `incGammaP`, `incGammaQ` are **opaque function symbols**: theorems about the families built
-  on them take the needed facts (`P + Q = 1`, …) as hypotheses, never as axioms. -/
+* `erfc` is an **opaque function symbol** (the code's `esl_stats_erfc`): theorems about the normal family take the
+  needed facts (`erfc (-t) = 2 - erfc t`, antitonicity) as hypotheses, never as axioms.
+* `logGamma`, `incGammaP`, `incGammaQ` are the hand model of `esl_stats_LogGamma` / `esl_stats_IncompleteGamma`
+  (`Dist/Special.lean`, the same definition the `Float` instance executes) read over `ℝ`; where the C function throws
+  (`none`) the value is the opaque `realJunk`.  What they *approximate* (Γ, P, Q) is not proved — only what follows
+  from how the code forms them (`Q = 1 - P` or `P = 1 - Q`). -/
 noncomputable section
 namespace EaselModel.Dist
 
 opaque realInf : ℝ
 opaque realErfc : ℝ → ℝ
-opaque realLogGamma : ℝ → ℝ
-opaque realIncGammaP : ℝ → ℝ → ℝ
-opaque realIncGammaQ : ℝ → ℝ → ℝ
+opaque realJunk : ℝ
+
+/-- `esl_stats_IncompleteGamma` as a real function: `some (P, Q)` where the C code returns `eslOK` -/
+def realIncGamma (a x : ℝ) : Option (ℝ × ℝ) :=
+  Special.incGamma Real.exp Real.log (fun t => |t|) (fun s t => decide (s = t)) a x
 
 instance instNumReal : Num ℝ where
   exp := Real.exp
   log := Real.log
+  log1p := fun x => Real.log (1 + x)
+  expm1 := fun x => Real.exp x - 1
   pow := fun x y => x ^ y
   sqrt := Real.sqrt
   floor := fun x => (⌊x⌋ : ℝ)
@@ -31,12 +40,14 @@ instance instNumReal : Num ℝ where
   erfc := realErfc
   eqb := fun a b => decide (a = b)
   inf := realInf
-  logGamma := realLogGamma
-  incGammaP := realIncGammaP
-  incGammaQ := realIncGammaQ
+  logGamma := Special.logGamma Real.log
+  incGammaP := fun a x => match realIncGamma a x with | some pq => pq.1 | none => realJunk
+  incGammaQ := fun a x => match realIncGamma a x with | some pq => pq.2 | none => realJunk
 
 @[simp] theorem num_exp (x : ℝ) : Num.exp x = Real.exp x := rfl
 @[simp] theorem num_log (x : ℝ) : Num.log x = Real.log x := rfl
+@[simp] theorem num_log1p (x : ℝ) : Num.log1p x = Real.log (1 + x) := rfl
+@[simp] theorem num_expm1 (x : ℝ) : Num.expm1 x = Real.exp x - 1 := rfl
 @[simp] theorem num_pow (x y : ℝ) : Num.pow x y = x ^ y := rfl
 @[simp] theorem num_sqrt (x : ℝ) : Num.sqrt x = Real.sqrt x := rfl
 @[simp] theorem num_fabs (x : ℝ) : Num.fabs x = |x| := rfl
@@ -46,6 +57,29 @@ instance instNumReal : Num ℝ where
 @[simp] theorem num_eqb_false (a b : ℝ) : (Num.eqb a b = false) ↔ a ≠ b := by
   show decide (a = b) = false ↔ a ≠ b
   simp
+
+theorem num_incGammaP (a x : ℝ) : Num.incGammaP a x = match realIncGamma a x with | some pq => pq.1 | none => realJunk := rfl
+theorem num_incGammaQ (a x : ℝ) : Num.incGammaQ a x = match realIncGamma a x with | some pq => pq.2 | none => realJunk := rfl
+
+/-- However the code arrives at them, `P + Q = 1`: it forms one as `1 -` the other. -/
+theorem realIncGamma_sum {a x p q : ℝ} (h : realIncGamma a x = some (p, q)) : p + q = 1 := by
+  unfold realIncGamma Special.incGamma at h
+  split_ifs at h
+  · split at h
+    · exact absurd h (by simp)
+    · simp only [Option.some.injEq, Prod.mk.injEq] at h
+      obtain ⟨h1, h2⟩ := h
+      rw [← h1, ← h2]; norm_num
+  · split at h
+    · exact absurd h (by simp)
+    · simp only [Option.some.injEq, Prod.mk.injEq] at h
+      obtain ⟨h1, h2⟩ := h
+      rw [← h1, ← h2]; norm_num
+
+theorem incGammaP_add_Q {a x : ℝ} (h : (realIncGamma a x).isSome) : Num.incGammaP a x + Num.incGammaQ a x = 1 := by
+  rw [num_incGammaP, num_incGammaQ]
+  obtain ⟨⟨p, q⟩, hpq⟩ := Option.isSome_iff_exists.mp h
+  rw [hpq]; exact realIncGamma_sum hpq
 
 /-- decimal literals of the generated code that denote integers -/
 @[simp] theorem lit_one : (1.0 : ℝ) = 1 := by norm_num
